@@ -29,6 +29,7 @@ def run(ctx, rep):
     rep.section(m3, ctx, rep)
     rep.section(m5, ctx, rep)
     rep.section(m4, ctx, rep)
+    rep.section(m6, ctx, rep)
 
 
 def m0(ctx, rep):
@@ -234,6 +235,30 @@ def m3(ctx, rep):
         # the key is the crate_name of the very value that is merged under it
         ok = any(vt.is_field_of(keyv, a['value'], 'crate_name') for a in folds)
     rep.check(ok, 'M3', 'collector:key', 'results keyed by parsed_data.crate_name', f"the collector files results under `{shown[:60]}`, not under the crate name of the result being merged", {'file': pp['file'], 'line': pp['line']})
+
+
+def m6(ctx, rep):
+    """M6: every branch of used_imports that decides "these names are wanted from that crate" creates the import entry when
+    it does not exist yet: an `entry(crate).and_modify(..)` is always completed by `or_insert* / or_default`, so that the first
+    import of a crate (for instance one that is only reached through `use other::*`) is not silently dropped."""
+    f = ctx.fn('used_imports', file='language/mod.rs')
+    fx = ctx.x(f)
+    site = {'file': f['file'], 'line': f['line']}
+    n = 0
+    for c in fx['calls']:
+        if c.get('f') != 'and_modify':
+            continue
+        r = vt.unvar(c.get('recv'))
+        if not (isinstance(r, dict) and r.get('k') == 'call' and r.get('f') == 'entry'):
+            continue
+        n += 1
+        key = vt.ckey(c.get('recv'))
+        completed = any(c2.get('f') in ('or_insert', 'or_insert_with', 'or_default', 'or_insert_with_key') and any(x.get('k') == 'call' and x.get('f') == 'and_modify' and vt.ckey(x.get('recv')) == key and x.get('line') == c.get('line') for x in vt.walk(c2.get('recv')))
+                        for c2 in fx['calls'])
+        branch = next((vt.show(fr.get('c'))[:60] for fr in reversed(c.get('guard', [])) if fr.get('k') == 'if'), '')
+        rep.check(completed, 'M6', f"used_imports:entry-created#{n}", 'entry created when absent', f"used_imports only *extends* an existing import entry under `{branch}` (and_modify without or_insert/or_default): when no other import of that crate exists — a file that reaches another crate's types through `use other::*` alone — the import line is missing although the types are used", {'file': f['file'], 'line': c.get('line')})
+    ents = [c for c in fx['calls'] if c.get('f') == 'entry']
+    rep.floor('M6', 'import-entry updates in used_imports', len(ents), 2)
 
 
 def m5(ctx, rep):
